@@ -32,7 +32,11 @@
 (***************************************************************************)
 EXTENDS Naturals, Sequences, FiniteSets, TLC
 
-VARIABLES cfg,     \* [D, P, BF, items, items2]; an item is [c |-> construct, E |-> its own filter list]
+VARIABLES cfg,     \* [D, P, BF, items, items2]; an item is [c |-> construct, E |-> its own filter list, s |-> site]:
+                   \* the SITE is where in the template the construct stands -- body, top-level def, nested def, named block
+                   \* (top-level / inside a block), anonymous block, <%call> body, <%namespace> inline def, a block
+                   \* overridden in an inheriting template, an included template.  A separate code generator instance
+                   \* may compile each of them; the pipeline must not depend on it (SiteIndependent)
           dobj,    \* content of the default_filters list object
           bobj,    \* content of the buffer_filters list object
           item,    \* index of the construct being compiled (over items \o items2)
@@ -116,6 +120,10 @@ Expected(c, i) ==
     [] it.c \in {"bufdef", "cachedbufdef"} -> Names(Without(it.E, "n")) \o Names(Without(c.BF, "n")) \o ExprPipe(c.D, p, <<>>)
 \* every construct already compiled -- the first, the k-th, those of the second template -- got its documented pipeline
 PipelineOrder == \A i \in 1..Len(apps) : (i < item \/ phase = "done") => apps[i] = Expected(cfg, i)
+\* the pipeline of a construct does not depend on WHERE in the template it stands
+AtBody(c) == [c EXCEPT !.items = [i \in 1..Len(c.items) |-> [c.items[i] EXCEPT !.s = "body"]],
+                       !.items2 = [i \in 1..Len(c.items2) |-> [c.items2[i] EXCEPT !.s = "body"]]]
+SiteIndependent == \A i \in 1..Len(apps) : (i < item \/ phase = "done") => apps[i] = Expected(AtBody(cfg), i)
 \* compiling never changes the shared configuration objects
 ConfigImmutable == dobj = cfg.D /\ bobj = cfg.BF
 NameTable == \A i \in 1..Len(apps) : \A j \in 1..Len(apps[i]) : apps[i][j] \notin Flags
